@@ -133,6 +133,7 @@ Definition P_threshold_zero : N := 12.
 Definition P_nil_cancel : N := 13.
 Definition P_nil_vrv : N := 14.
 Definition P_nil_signer : N := 15.
+Definition P_finalize_nokeys : N := 16.
 
 Definition K_consider : N := 3.
 Definition K_choose : N := 4.
@@ -293,15 +294,13 @@ Fixpoint find_ph (phs : list ph) (h : hash) : option ph :=
 Definition finalize_req (h r : N) (bh : hash) : M :=
   say (OFinalizeReq h r bh) ;; upd (fun s => set_finReq (Some (gen s, h, r, bh)) s).
 
-(** beginCommit. [strict]: the caller looks at the result. When the proposed header is missing the
-    Go function returns through a bare [return] of its named result [ok], i.e. FALSE; beginRoundLive
-    propagates that up to the kernel loop, which returns (the state machine halts); the view-update
-    handlers ignore it. *)
-Definition begin_commit (strict : bool) (v : view) : M :=
+(** beginCommit (after the repair of its result: a missing proposed header is not a failure; the
+    finalization request is made later by handleCommitWaitViewUpdate) *)
+Definition begin_commit (v : view) : M :=
   updr (set_rS StepCommitWait) ;;
   start_timer 4 ;;
   match find_ph (v_phs v) (pcm v) with
-  | None => if strict then stop FHalt else ret
+  | None => ret
   | Some p => finalize_req (v_h v) (v_r v) (ph_hash p)
   end.
 
@@ -347,7 +346,7 @@ Definition begin_round_live (v : view) : M :=
       else if st =? StepCommitWait then
         match pcm v with
         | [] => advance_round
-        | _ => begin_commit true v ;; updr (set_rVRV (Some v))
+        | _ => begin_commit v ;; updr (set_rVRV (Some v))
         end
       else stop (FPanic P_beginRound_default)
   end.
@@ -360,7 +359,7 @@ Definition handle_proposal_view (v : view) : M :=
       if mj <=? pc_pow v then
         match pcm v with
         | [] => advance_round
-        | _ => begin_commit false v
+        | _ => begin_commit v
         end
       else
         updr (set_rS StepPrecommitDelay) ;; start_timer 3 ;; req_decide (v_vs v)
@@ -398,7 +397,7 @@ Definition handle_prevote_view (v : view) : M :=
         if mj <=? pc_pow v then
           match pcm v with
           | [] => advance_round
-          | _ => begin_commit false v
+          | _ => begin_commit v
           end
         else
           updr (set_rS StepPrecommitDelay) ;; start_timer 3 ;; req_decide (v_vs v)
@@ -418,7 +417,7 @@ Definition handle_precommit_view (v : view) : M :=
         if mj <=? pc_pow v then
           match pcm v with
           | [] => advance_round
-          | _ => when (rS (rl s) =? StepPrecommitDelay) (cancel_timer true) ;; begin_commit false v
+          | _ => when (rS (rl s) =? StepPrecommitDelay) (cancel_timer true) ;; begin_commit v
           end
         else if tpc v =? avail v then advance_round
         else when (rS (rl s) =? StepAwaitingPrecommits) (updr (set_rS StepPrecommitDelay) ;; start_timer 3)
@@ -544,7 +543,10 @@ Definition record_proposed_header (d : hash) : M := withS (fun s =>
   (if initial_height <? h then
      match rVRV (rl s) with
      | None => stop (FPanic P_nil_vrv)
-     | Some v => if pcp_finalizes (rl s) v then ret else stop FHalt
+     | Some v =>
+         (* CommitProofFinalizer.Finalize: the proof scheme's constructor panics on an empty key list *)
+         if rPrevVS (rl s) =? 0 then stop (FPanic P_finalize_nokeys)
+         else if pcp_finalizes (rl s) v then ret else stop FHalt
      end
    else ret) ;;
   (if signer s then ret else stop (FPanic P_nil_signer)) ;;
